@@ -181,6 +181,20 @@ def h_table(ctx):
             ctx.check_eq('table/%s/regs' % label, g['regs'], w['regs'])
     ctx.check_eq('table/%s/reg_order' % label, got_order, want_order)
     ctx.check('table/memo', entry.get_decoded() is dec)
+    if not as_cie:
+        # decoding an FDE leaves the CIE's decoded table as it was, and decoding another FDE of the same CIE afterwards changes
+        # neither (the tables share no mutable state)
+        cie = entry.cie
+        cdec = cie.get_decoded()
+        ctx.check_eq('table/cie-unchanged/reg_order', list(cdec.reg_order), list(order))
+        ctx.check_eq('table/cie-unchanged/rows', len(cdec.table), 0 if line is None else 1)
+        C = ctx.lib('construct')
+        other = CF.FDE(header=C.Container(length=0, CIE_pointer=0, initial_location=loc, address_range=16), structs=entry.structs,
+                       instructions=[CF.CallFrameInstruction(opcode=0x80 | 7, args=[7, ctx.uint('other.off', 16)])], offset=64, cie=cie)
+        odec = other.get_decoded()
+        ctx.check_eq('table/second-fde/reg_order', list(odec.reg_order), list(order) + ([7] if 7 not in order else []))
+        ctx.check_eq('table/first-fde-unchanged/reg_order', list(dec.reg_order), want_order)
+        ctx.check_eq('table/cie-unchanged-after-second/reg_order', list(cie.get_decoded().reg_order), list(order))
 
 
 # ------------------------------------------------------------------ H6.1 entry scan
